@@ -868,7 +868,7 @@ pub fn run(ctx: &mut Ctx) {
         "two reports with the same exchange timestamp but different content, and a nothing-left-to-fill open report not newer than held data (both impossible on a consistent exchange timeline) may be honoured or ignored".into(),
     ];
     ctx.run_regressions::<OrdersLifecycle>();
-    ctx.run::<OrdersLifecycle>(ctx.tier.pick(6_000, 200_000));
+    ctx.run::<OrdersLifecycle>(ctx.tier.pick(120_000, 2_000_000));
     match ctx.tier {
         Tier::Quick => {
             ctx.run_enumerated::<OrdersLifecycle>("exhaustive_1cid_len3_engine_originated", enumerate(1, 3, true));
